@@ -726,7 +726,9 @@ func fix128BigIntToFix64(
 		panic(&UnderflowError{})
 	}
 
-	bigInt = bigInt.Div(bigInt, fixedpoint.Fix64ToFix128FactorAsBigInt)
+	// Truncate toward zero.
+	// NOTE: `Div` implements Euclidean division, which rounds negative values away from zero.
+	bigInt = bigInt.Quo(bigInt, fixedpoint.Fix64ToFix128FactorAsBigInt)
 	return NewFix64Value(
 		memoryGauge,
 		func() int64 {
